@@ -36,7 +36,11 @@ MANIFEST = {
              "function of the window abs(t-|w|+1..t)), fill_missing (observed cells kept, a missing cell gets the method's value from the "
              "closest observed neighbours in the span: constant/next/previous/nearest/linear spelled out on periods) and extrapolate (the "
              "AR recursion cell by cell with the lags in the documented order, history untouched) are proved on abs as well; "
-             "op_refines_map collects the equation of every op kind; "
+             "writes of columns, fill_missing and extrapolate are also proved for arbitrary lists of distinct periods (stepped, backward, "
+             "unordered; repetitions: last write wins); op_refines_map collects the equation of every op kind; a minimal heap model "
+             "(one buffer class per pool slot) proves by induction over op sequences that no two pool objects ever share a buffer "
+             "(functional forms, copy and underlay fill their target with a fresh buffer, in-place ops touch only the receiver), tied "
+             "by comparing the model's partition with the np.shares_memory partition after every op; "
              "trim leaves abs unchanged and establishes "
              "'no all-missing leading/trailing row, all-missing = empty series without start'; well-formedness is preserved by every "
              "operation and lifted to arbitrary op sequences over a pool by induction (reachable_inv). The model is tied to the code on "
@@ -46,8 +50,8 @@ MANIFEST = {
     "design": "7/C10",
     "note": ("numpy dtype promotion/printing, the state left by a write that raises half-way, extrapolate(log=True), median/std/var/quantiles, "
              "log_linear/from_series fills and transcendental element-wise functions are outside the model; mean/nanmean/mov_avg/linear "
-             "fills and extrapolate (scipy lfilter) are compared with tolerance 1e-9 (class T) when a divisor is not a power of two; aliasing is a heap fact checked at "
-             "run time, not proved."),
+             "fills and extrapolate (scipy lfilter) are compared with tolerance 1e-9 (class T) when a divisor is not a power of two; which numpy call copies or returns a view inside one object is not modelled (the heap model speaks "
+             "about sharing between objects only)."),
     "technique": "Lean 4 proof (refinement of an executable model to a map) + op-sequence differential correspondence + heap isolation oracle",
 }
 ASSUMPTIONS = [
@@ -723,17 +727,20 @@ def oracle_step(oracle, reps, ws):
         dfreq, serials = o_dates(d, rep)
         if serials and rep[0] is not None and dfreq != rep[0]:
             raise Undefined
-        if len(set(serials)) != len(serials) or serials != sorted(serials):
-            raise Undefined                      # the documented neighbour rule speaks about a span in calendar order
+        if len(set(serials)) != len(serials):
+            raise Undefined                      # repeated periods: only the model's last-write-wins statement applies
         m = dict(src["m"])
         const = fr(cellf(arg)) if method == "constant" else None
         for v in range(src["nv"]):
-            obs = [t for t in serials if (t, v) in src["m"]]
-            for t in serials:
+            # neighbours are taken in the order of the date collection (= calendar order for an ordinary span)
+            obs_pos = [q_ for q_, t in enumerate(serials) if (t, v) in src["m"]]
+            for pos_, t in enumerate(serials):
                 if (t, v) in src["m"]:
                     continue
-                prev = max((u for u in obs if u < t), default=None)
-                nxt = min((u for u in obs if u > t), default=None)
+                pp = max((q_ for q_ in obs_pos if q_ < pos_), default=None)
+                nn = min((q_ for q_ in obs_pos if q_ > pos_), default=None)
+                prev = serials[pp] if pp is not None else None
+                nxt = serials[nn] if nn is not None else None
                 val = None
                 if method == "constant":
                     val = const
@@ -776,16 +783,20 @@ def oracle_step(oracle, reps, ws):
             if serials:
                 if dfreq != rep[0] or not coeffs or src["nv"] == 0:
                     raise Undefined
-                if serials != list(range(serials[0], serials[0] + len(serials))):
-                    raise Undefined                  # the statement speaks about a span t = 1, …, T of consecutive periods
-                # x_t = rho_1 x_{t-1} + … + rho_p x_{t-p} + c on the span, lags taken from the map (extrapolated cells included)
+                if len(set(serials)) != len(serials):
+                    raise Undefined
+                # x_t = rho_1 x_{t-1} + … + rho_p x_{t-p} + c for len(span) steps from the first date, lags from the history before it;
+                # the k-th value goes to the k-th date (for consecutive periods: the recursion on the map itself)
                 for v in range(src["nv"]):
+                    hist = [src["m"].get((serials[0] - j, v)) for j in range(1, len(coeffs) + 1)]      # most recent first
                     for t in serials:
-                        lags = [m.get((t - j, v)) for j in range(1, len(coeffs) + 1)]
-                        if any(x is None for x in lags):
+                        lags = hist[: len(coeffs)]
+                        x = None if any(z is None for z in lags) else sum((r * z for r, z in zip(coeffs, lags)), Fraction(0)) + c0
+                        hist.insert(0, x)
+                        if x is None:
                             m.pop((t, v), None)
                         else:
-                            m[(t, v)] = sum((r * x for r, x in zip(coeffs, lags)), Fraction(0)) + c0
+                            m[(t, v)] = x
         put(k, m, src["nv"])
     elif op == "rw":
         i = I(1); rep, src = reps[i], oracle[i]
@@ -1401,6 +1412,11 @@ def directed_lines(ctx: Ctx):
             lines.append(f"{h} | extrap 1 0 {cs} 0 {sp_(n0, n0 + 3)} | extrap 1 0 {cs} 1/2 {sp_(n0 - 2, n0 + 1)} | extrap 2 0 {cs} 0 {sp_(1, 3)}"
                          f" | extrap 2 0 {cs} -1 {sp_(-1, 1)} | extrap 2 0 {cs} 1 {sp_(n0 + 2, n0 + 3)} | extrap 2 1 {cs} 0 {sp_(n0 + 4, n0 + 5)}"
                          f" | mextrap 0 {cs} 1/2 {sp_(n0, n0 + 1)} | extrap 2 0 {cs} 0 sp=Y2020,Y2021,1")
+        # date collections resolved against the series' own ends, stepped, backward, unordered
+        for d_ in ("sp=-,-,1", "sp=-,-,-1", "sp=-,-,2", "sp=-,-,-2", f"sp=-,{F_}{s0 + n0 + 2},3", f"sp={F_}{s0 + n0 + 3},-,-2",
+                   f"l={F_}{s0 + 3},{F_}{s0},{F_}{s0 + n0 + 1},{F_}{s0 + 1}"):
+            lines.append(f"{h} | get 0 {d_} all | fill 1 0 previous - {d_} | fill 1 0 nearest - {d_} | fill 2 0 linear - {d_}"
+                         f" | extrap 1 0 1/2,1/4 1 {d_} | copy 1 0 | set 1 {d_} all s=9 | mfill 0 next - {d_}")
         for t_, c in (("lt", "3"), ("ge", "2"), ("eq", "6"), ("ne", "1"), ("isnan", "0")):
             lines.append(f"{h} | copy 1 0 | rw 1 {t_} {c} nan | copy 1 0 | rw 1 {t_} {c} 5 | rw 0 {t_} {c} -1/2")
     ctx.count("directed_sequences", len(lines))
